@@ -24,6 +24,43 @@ def e2e(name, kt, n, eps, epsrec, flt='float', tiers=Q, timeout=900, extra=None,
                        % (n, kt, '; the reserved value allowed as last key -> rejection path' if extra and 'ALLOW_SENTINEL' in extra else '', eps, epsrec, flt))
 
 
+def fixed_data(kt, n, seed, shape):
+    """deterministic sorted data set (ordinals in the key type's order) for the fixed-data jobs"""
+    import random
+    r = random.Random(seed); bits = KT[kt]['KEY_BITS']; top = (1 << bits) - 2
+    if shape == 'uniform': v = [r.randint(0, top) for _ in range(n)]
+    elif shape == 'clustered':     # runs of nearby keys separated by large gaps, some duplicates
+        v = []; x = r.randint(0, top // 4)
+        while len(v) < n:
+            for _ in range(r.randint(1, 6)):
+                v.append(min(x, top)); x += r.choice([0, 1, 1, 2, 3, 7])
+            x += r.randint(1, max(2, top // (n // 2 + 1)))
+        v = v[:n]
+    elif shape == 'groups':        # groups of 4 consecutive keys 100 apart, then one far key: the upper level under-estimates the last groups
+        g = (n - 1) // 4
+        v = [100 * i + t for i in range(g) for t in range(4)]
+        while len(v) < n - 1: v.append(v[-1] + 1)
+        v.append(min(top, v[-1] + r.randint(1000, 1 << (bits - 2))))
+    else:                          # 'steps': slopes that change abruptly
+        v = []; x = r.randint(0, 1000); step = 1
+        for i in range(n):
+            if i % r.randint(3, 7) == 0: step = r.choice([1, 2, 5, 50, 1000, 1 << (bits // 2)])
+            v.append(min(x, top)); x += step
+    return sorted(v)
+
+
+def e2e_fixed(name, kt, n, eps, epsrec, seed, shape, flt='float', tiers=Q, timeout=900, mem_gb=14, extra=None):
+    data = fixed_data(kt, n, seed, shape)
+    j = e2e(name, kt, n, eps, epsrec, flt=flt, tiers=tiers, timeout=timeout, mem_gb=mem_gb, narrow=0,
+            extra=dict(FIXED_DATA=','.join('%dULL' % x for x in data), VERIF_VEC_CAP=n + 8, **(extra or {})))
+    j['bounds'] = ('ONE concrete sorted data set of %d %s keys (shape %r, python random.Random(%d), listed in the job definition) and EVERY non-reserved query key of the type (symbolic); '
+                   'Epsilon=%d, EpsilonRecursive=%d, %s slopes; decides the property for this data set only' % (n, kt, shape, seed, eps, epsrec, flt))
+    j['profile_unwind'] = 2 * n + 40; j['refine_rounds'] = 12
+    j['cbmc_extra'] = ['--max-field-sensitivity-array-size', str(n + 16)]     # keep the concrete construction constant-propagated element by element
+    if extra and 'SYM_LAST' in extra: j['bounds'] = j['bounds'].replace('ONE concrete sorted data set', 'a sorted data set whose LAST key is symbolic (any value >= its predecessor) and whose other keys are concrete:')
+    return j
+
+
 def pla(name, k, epsfix=None, epsmax=2, ymax=12, xmax=255, maximality=True, tiers=Q, timeout=900, reject=False):
     d = dict(KT['uint8_t']); d.update(NPTS=k, EPSMAX=epsmax, YMAX=ymax, XMAX=xmax, VERIF_VEC_CAP=k + 2)
     if epsfix is not None: d.update(EPSFIX=epsfix, EPSMAX=epsfix)
@@ -129,6 +166,36 @@ def seg(name, kt, fbits=32, tiers=Q, timeout=900):
                 bounds='Segment::operator() for EVERY %s key triple key <= k1 <= k2 (full width, reserved value excluded), slopes 0 and (1+m/8)*2^e, m 0..7, e -12..10 (%d-bit type), every intercept < 2^20' % (kt, fbits))
 
 
+def mergek(name, skipdel, runmax=3, kmax=5, vmax=1, tiers=Q, timeout=900):
+    d = dict(SKIPDEL=skipdel, RUNMAX=runmax, KMAX=kmax, VMAX=vmax, VERIF_VEC_CAP=8, VERIF_VECVEC_CAP=36, VERIF_SET_CAP=4)
+    return dict(name=name, unit='dyn_kernels.cpp', harness='h_merge.c', defs=d, narrow=16, roots=['@u_merge'], timeout=timeout, tiers=tiers,
+                bounds='DynamicPGMIndex::merge<%s,false>: ALL pairs of strictly sorted runs of 0..%d items over keys 0..%d, values 0..%d, tombstones anywhere' % ('true' if skipdel else 'false', runmax, kmax, vmax))
+
+
+def losertree(name, nsrc, seqmax=2, keymax=3, tiers=Q, timeout=900):
+    d = dict(NSRC=nsrc, KMAXSRC=4, SEQMAX=seqmax, KEYMAX=keymax, VERIF_VEC_CAP=10, VERIF_VECVEC_CAP=36, VERIF_SET_CAP=4)
+    return dict(name=name, unit='dyn_kernels.cpp', harness='h_losertree.c', defs=d, narrow=16, roots=['@u_losertree'], timeout=timeout, tiers=tiers,
+                recursion=[('F__ZN3pgm8internal9LoserTreeIhE11init_winnerERKh', 5)],     # init_winner nests log2(k)+1 <= 3 deep for k <= 4
+                bounds='internal::LoserTree<uint8_t> with %d sources of 1..%d sorted keys in 0..%d each, popped to exhaustion as Iterator::advance() does' % (nsrc, seqmax, keymax))
+
+
+def copyjob(name, kind, n, n2, modes, kmaxv=5, eps=1, epsrec=1, topsize=3, tiers=Q, timeout=900, mem_gb=14, extra=None):
+    cls = ['PGMIndex<uint8_t,%d,%d>' % (eps, epsrec), 'BucketingPGMIndex<uint8_t,%d,%d,32>' % (eps, topsize), 'MultidimensionalPGMIndex<2,uint32_t,%d,%d>' % (eps, epsrec),
+           'DynamicPGMIndex<uint8_t,uint8_t,PGMIndex<uint8_t,%d,%d>>(base 2, buffer_level 1, index_level 2)' % (eps, epsrec)][kind]
+    d = dict(CKIND=kind, N=n, N2=n2, NKEYS=max(n, n2), MODES=modes, KMAXV=kmaxv, EPS=eps, EPSREC=epsrec, TOPSIZE=topsize, BASE=2, BUFL=1, IDXL=2,
+             VERIF_VEC_CAP=max(n, n2) + 6, VERIF_VECVEC_CAP=36, VERIF_SET_CAP=kmaxv + 2, PGM_INDEX_VERIF_MISS_THRESHOLD=1)
+    if extra: d.update(extra)
+    if bin(modes).count('1') == 1: d['MODE1'] = modes.bit_length() - 1
+    mnames = ['copy-construct', 'copy-assign over a default-constructed object', 'move-construct', 'move-assign over a default-constructed object',
+              'copy-assign over a different index', 'move-assign over a different index', 'copy-construct then update the source', 'copy-construct then update the copy']
+    job = dict(name=name, unit='copy.cpp', harness='h_copy.c', defs=d, narrow=16, roots=['@u_copy'], timeout=timeout, tiers=tiers, mem_gb=mem_gb,
+               bounds='%s over exactly %d symbolic keys (values 0..%d); modes: %s; afterwards the source is destroyed and its storage reused for an index over %d other symbolic keys '
+                      '(or updated by one symbolic insert_or_assign/erase); every query' % (cls, n, kmaxv, ', '.join(m for i, m in enumerate(mnames) if modes >> i & 1), n2))
+    if kind in (1, 2):
+        job.update(noop=['memory_monitor6record'], unreachable=['_Rb_tree', 'system_category', 'system_error', 'bad_alloc', 'hugepage'])
+    return job
+
+
 JOBS = {}
 JOBS['C01'] = [
     e2e('e2e_u8_n1_e1_r1', 'uint8_t', 1, 1, 1),
@@ -166,6 +233,14 @@ JOBS['C14'] = [md('md_contains_n1', 0, 1, 3), md('md_contains_n2', 0, 2, 3)]
 JOBS['C13'] = [md('md_range_n1', 1, 1, 3), md('md_range_n2', 1, 2, 3), md('md_range_n3_skip', 1, 3, 1, miss=0, epsrec=0, timeout=3000, tiers=T, mem_gb=40)]
 JOBS['C05'] = [dyn('dyn_q_noidx_b0_o2', 0, 0, 2, idxl=10), dyn('dyn_q_noidx_b0_o3', 0, 0, 3, idxl=10), dyn('dyn_q_noidx_b0_o4', 0, 0, 4, idxl=10, timeout=1500)]
 JOBS['C06'] = [dyn('dyn_it_noidx_b0_o2', 1, 0, 2, idxl=10), dyn('dyn_rng_noidx_b0_o2', 3, 0, 2, idxl=10), dyn('dyn_lbit_noidx_b0_o2', 4, 0, 2, idxl=10), dyn('dyn_it_noidx_b0_o4', 1, 0, 4, idxl=10, tiers=T, timeout=3000)]
+JOBS['C05'] += [mergek('merge_skip_r3', 1), mergek('merge_keep_r3', 0),
+                mergek('merge_skip_r4', 1, runmax=4, kmax=7, tiers=T, timeout=1800), mergek('merge_keep_r4', 0, runmax=4, kmax=7, tiers=T, timeout=1800)]
+JOBS['C06'] += [losertree('losertree_k%d' % k, k) for k in (1, 2, 3, 4)]
+JOBS['C06'] += [losertree('losertree_k%d_s3_full' % k, k, seqmax=3, keymax=254, tiers=T, timeout=1800) for k in (3, 4)]
+MODE_TAG = ['cc', 'ca', 'mc', 'ma', 'cao', 'mao', 'updsrc', 'updcopy']
+QUICK_MODES = {0: (0, 2, 4), 1: (0, 1, 2, 4), 2: (0, 4), 3: (0, 2, 6)}      # the other modes run in the thorough tier
+JOBS['C19'] = [copyjob('copy_%s_%s_n2' % (kn, MODE_TAG[m]), k, 2, 1, 1 << m, tiers=Q if m in QUICK_MODES[k] else T, timeout=1500)
+               for k, kn, ms in ((0, 'pgm', range(6)), (1, 'bucket', range(6)), (2, 'md', range(6)), (3, 'dyn', (0, 2, 6, 7))) for m in ms]
 JOBS['C15'] = [dyn('dyn_inv_noidx_b0_o2', 2, 0, 2, idxl=10), dyn('dyn_inv_noidx_b0_o3', 2, 0, 3, idxl=10), dyn('dyn_inv_noidx_b0_o4', 2, 0, 4, idxl=10, tiers=T, timeout=3000, mem_gb=40)]
 JOBS['C05'] += [dynstep('dynstep_find_311', 5, 3, 1, 1, timeout=1500), dynstep('dynstep_find_310', 5, 3, 1, 0, tiers=T, timeout=3000), dynstep('dynstep_q_310', 0, 3, 1, 0, tiers=T, timeout=3000), dynstep('dynstep_q_321', 0, 3, 2, 1, tiers=T, timeout=3000, mem_gb=40)]
 JOBS['C06'] += [dynstep('dynstep_range_310', 6, 3, 1, 0, tiers=T, timeout=3000, mem_gb=40), dynstep('dynstep_it_310', 1, 3, 1, 0, tiers=T, timeout=3000, mem_gb=40), dynstep('dynstep_rng_310', 3, 3, 1, 0, tiers=T, timeout=3000, mem_gb=40)]
@@ -231,6 +306,18 @@ PROPS = {
     'C20': dict(level='model_checking', outside=['DynamicPGMIndex rejections (unsorted bulk-load, base, tombstone value, lo > hi), coordinate-width check: not claimed yet'], assumptions=MODEL,
                 explanation='Data whose last key is the reserved value is rejected with std::invalid_argument, and only such data (e2e jobs with the sentinel allowed); add_point with a non-increasing key throws logic_error.'),
 }
+# fixed-data jobs: one concrete data set, every query symbolic
+JOBS['C07'] += [e2e_fixed('e2e_fixed_u32_n24_e1_r1_s1', 'uint32_t', 24, 1, 1, 1, 'clustered')]
+JOBS['C07'] += [e2e_fixed('e2e_fixed_u64_n113_e1_r26_groups', 'uint64_t', 113, 1, 26, 1, 'groups', flt='double', tiers=T, timeout=1800),
+                e2e_fixed('e2e_symlast_u32_n24_e1_r1_s1', 'uint32_t', 24, 1, 1, 1, 'clustered', tiers=T, timeout=1800, extra=dict(SYM_LAST=1))]
+PROPS['C19'] = dict(level='model_checking', assumptions=MODEL, workers=8,
+                    outside=['CompressedPGMIndex and EliasFanoPGMIndex (sdsl sd_vector / select supports: out of memory, see C08/C10)',
+                             'the copy/move of std::vector itself: libstdc++ container code is replaced by the model containers, whose copy allocates and whose move steals the buffer',
+                             'indexes over more than 2 keys; self-assignment; DynamicPGMIndex assignment (the class has const members and provides none)',
+                             'dangling references into the source OBJECT (not its heap buffers) are seen only as different answers after the storage is reused, not as a memory-safety failure'],
+                    explanation='Real copy/move constructors and assignment operators (compiler-generated memberwise code of PGMIndex, MultidimensionalPGMIndex, DynamicPGMIndex; sdsl::int_vector copy/move code in '
+                                'BucketingPGMIndex) executed on an index built by the real constructor over symbolic keys; the source is then destroyed and its storage reused for a different index (or updated, for '
+                                'DynamicPGMIndex), and the copy must answer every query as the source did, with every memory access checked (freed-storage dereference = SAFETY failure).')
 for p in JOBS: PROPS.setdefault(p, dict(level='model_checking', explanation='', outside=[], assumptions=MODEL))
 
 # C17: the memory-safety obligations (SAFETY class) of one job per unit; boundary sizes n = 1, 2, 3 on purpose
